@@ -409,8 +409,17 @@ class Session:
                 lower, tlskit.client_ctx(tlskit.TLS13), server_side=False, server_hostname="localhost"))
             if backend.record_locks:         # the first fair lock the transport creates is its send lock
                 lower.send_lock = backend.record_locks[0]
-                with contextlib.suppress(AttributeError):
-                    tls._write_bio = C["BioProxy"](tls._write_bio, lower, lower.send_lock)
+                # both memory BIOs of the transport, found by type (whatever their names): the transport only ever READS
+                # its write BIO, so a recorded read identifies it
+                import ssl as _ssl
+
+                for klass in type(tls).__mro__:
+                    for slot in getattr(klass, "__slots__", ()):
+                        for name in (slot, f"_{klass.__name__}{slot}" if slot.startswith("__") else slot):
+                            with contextlib.suppress(AttributeError):
+                                if isinstance(getattr(tls, name), _ssl.MemoryBIO):
+                                    setattr(tls, name, C["BioProxy"](getattr(tls, name), lower, lower.send_lock))
+                                    self.bio_proxies = getattr(self, "bio_proxies", 0) + 1
             lower.gated = True
             lower.inbox.clear()      # (post-handshake session tickets: a reader must find nothing to read)
             self._keep.append(tls)
@@ -543,7 +552,12 @@ def _listener():
 
 
 A_TSTART = 6      # thread kinds: [6, t, c] start a thread whose send_packet uses timeout 0 (c=0) / SHORT_TIMEOUT (c=1) / inf (c=2)
+                  # / LONG_TIMEOUT (c=3: finite, never expires: the lock holder is released by the script while the caller waits)
+LONG_TIMEOUT = 3600.0
 SHORT_TIMEOUT = 0.05
+
+
+_HUNG = []
 
 
 class ThreadCtl:
@@ -682,9 +696,28 @@ def run_threads(kind, progs, actions, detail=False):
     def alive():
         return [th for th in threads.values() if th.is_alive()]
 
+    closed = []
+
+    def safe_close(limit=None):
+        """client.close() takes the send lock: run it aside so that a lock left held for ever cannot hang the harness"""
+        if closed:
+            return True
+
+        def run():
+            with contextlib.suppress(Exception):
+                client.close()
+            closed.append(1)
+
+        th = threading.Thread(target=run, daemon=True)
+        th.start()
+        th.join(limit if limit is not None else (ThreadCtl.WATCHDOG if not _HUNG else 5.0))
+        if not closed:
+            _HUNG.append(1)
+        return bool(closed)
+
     def wait_until(pred):
         """poll (a dying thread notifies, but is_alive() flips a moment later)"""
-        deadline = time.monotonic() + ThreadCtl.WATCHDOG
+        deadline = time.monotonic() + (ThreadCtl.WATCHDOG if not _HUNG else 5.0)
         while True:
             with ctl.cv:
                 if ctl.abort or pred():
@@ -692,7 +725,9 @@ def run_threads(kind, progs, actions, detail=False):
                 ctl.cv.wait(0.002)
             if time.monotonic() > deadline:
                 with ctl.cv:
-                    ctl.fail("watchdog: the threads did not come to rest")
+                    ctl.fail("watchdog: some thread is blocked for ever outside socket.send (waiting for the client's send lock "
+                             "that nobody holds any more?)")
+                _HUNG.append(1)      # a genuine hang has been seen in this process: the following waits are short
                 return False
 
     def quiescent():
@@ -714,11 +749,11 @@ def run_threads(kind, progs, actions, detail=False):
             if a[0] in (A_START, A_TSTART) and a[1] not in threads:
                 t = a[1]
                 tcode = None if a[0] == A_START else (a[2] if len(a) > 2 else 1)
-                tmo = {None: None, 0: 0.0, 1: SHORT_TIMEOUT, 2: float("inf")}[tcode]
+                tmo = {None: None, 0: 0.0, 1: SHORT_TIMEOUT, 2: float("inf"), 3: LONG_TIMEOUT}[tcode]
                 th = threading.Thread(target=body, args=(t, tmo), name=names[t], daemon=True)
                 threads[t] = th
                 th.start()
-                if a[0] == A_TSTART and tcode != 2:
+                if a[0] == A_TSTART and tcode in (0, 1):
                     # it either times out on the lock (held by the thread parked in send) or gets into send itself
                     wait_until(lambda: not th.is_alive() or ctl.at_gate == names[t])
                 wait_until(quiescent)
@@ -738,13 +773,15 @@ def run_threads(kind, progs, actions, detail=False):
                 ctl.released.update(names)
                 ctl.cv.notify_all()
         for th in threads.values():
-            th.join(ThreadCtl.WATCHDOG)
+            th.join(5.0 if (ctl.errors or _HUNG) else ThreadCtl.WATCHDOG)
             if th.is_alive():
                 ctl.errors.append(f"watchdog: thread {th.name} did not finish")
         packets = []
         if not ctl.errors:
-            if kind == KIND_THREAD_TCP:
-                client.close()
+            if not safe_close():
+                ctl.errors.append("watchdog: every send_packet has returned but client.close() blocks: the send lock is still held "
+                                  "at quiescence")
+            elif kind == KIND_THREAD_TCP:
                 peer.settimeout(60.0)
                 wire = bytearray()
                 while True:
@@ -767,14 +804,15 @@ def run_threads(kind, progs, actions, detail=False):
                         packets.append(peer.recv(65536))
                 except (TimeoutError, OSError):
                     pass
-                client.close()
                 packets.sort()
     finally:
         with ctl.cv:
             ctl.abort = True
             ctl.cv.notify_all()
+        # (client.close() takes the send lock: if a defect left it held for ever, do not hang with it)
+        safe_close(2.0)
         with contextlib.suppress(Exception):
-            client.close()
+            sock.close()
         peer.close()
     if ctl.errors:
         raise RuntimeError("; ".join(ctl.errors))
@@ -818,8 +856,17 @@ class _Outside(Exception):
     """the source is outside the fragment the `ast` reader understands: the behavioural probes decide alone"""
 
 
+def _self_attr_name(node):
+    """`self.<name>` -> name (else None)"""
+    import ast
+
+    if isinstance(node, ast.Attribute) and isinstance(node.value, ast.Name) and node.value.id == "self":
+        return node.attr
+    return None
+
+
 def _bool_of(expr, env):
-    """value of a condition built from self._locked / self._waiters with not / and / or; _Outside otherwise"""
+    """value of a condition built from self.<flag> / self.<queue> with not / and / or; _Outside otherwise"""
     import ast
 
     if isinstance(expr, ast.BoolOp):
@@ -827,23 +874,49 @@ def _bool_of(expr, env):
         return all(vals) if isinstance(expr.op, ast.And) else any(vals)
     if isinstance(expr, ast.UnaryOp) and isinstance(expr.op, ast.Not):
         return not _bool_of(expr.operand, env)
-    for name in env:
-        if _is_self_attr(expr, name):
-            return env[name]
+    name = _self_attr_name(expr)
+    if name in env:
+        return env[name]
     raise _Outside("condition outside the fragment")
 
 
 def ast_params():
-    """the facts as far as the `ast` reader sees them (tolerant of guard clauses, negated conditions, nesting, helpers
-    of the TLS class); _Outside when a piece is outside its fragment"""
+    """FairLock facts as far as the `ast` reader sees them.  Fields and helper are identified by their ROLES, not by their
+    names: the flag is the attribute set to True at the end of acquire() and to False in release(); the queue is the
+    attribute the new waiter is appended to; the wake-up helper is the method that subscripts the queue.  Tolerant of
+    guard clauses, negated conditions, nesting.  _Outside (never a definite value) when a role or a shape is not recognised."""
     import ast
+
+    out = {}
+    fn = _func(_FL, "FairLock", "acquire")
+    rel = _func(_FL, "FairLock", "release")
+
+    def assigned_const(f, value):
+        return {_self_attr_name(t) for n in ast.walk(f) if isinstance(n, ast.Assign) and isinstance(n.value, ast.Constant)
+                and n.value.value is value for t in n.targets if _self_attr_name(t)}
+
+    flags = assigned_const(fn, True) & assigned_const(rel, False)
+    queues = {_self_attr_name(n.func.value) for n in ast.walk(fn) if isinstance(n, ast.Call) and isinstance(n.func, ast.Attribute)
+              and n.func.attr == "append" and _self_attr_name(n.func.value)}
+    if len(flags) != 1 or len(queues) != 1:
+        raise _Outside("FairLock: cannot identify the locked flag / the waiter queue by their roles")
+    flag, queue = next(iter(flags)), next(iter(queues))
     import os
 
     from common import runner
 
-    out = {}
-    # ---- FairLock.acquire: the first `if` decides between the fast path and parking
-    fn = _func(_FL, "FairLock", "acquire")
+    tree = ast.parse(open(os.path.join(runner.REPO, _FL)).read())
+    cls = [n for n in tree.body if isinstance(n, ast.ClassDef) and n.name == "FairLock"][0]
+    wakers = [m for m in cls.body if isinstance(m, ast.FunctionDef) and m.name not in ("acquire", "release")
+              and any(isinstance(x, ast.Subscript) and _self_attr_name(x.value) == queue for x in ast.walk(m))]
+    if len(wakers) != 1:
+        raise _Outside("FairLock: cannot identify the wake-up helper")
+    waker = wakers[0]
+
+    def is_wake_call(stmt):
+        return isinstance(stmt, ast.Expr) and isinstance(stmt.value, ast.Call) and _self_attr_name(stmt.value.func) == waker.name
+
+    # the first `if` decides between the fast path and parking
     ifs = [n for n in fn.body if isinstance(n, ast.If)]
     if not ifs:
         raise _Outside("FairLock.acquire: no top-level if")
@@ -851,15 +924,12 @@ def ast_params():
     body_awaits = any(isinstance(n, ast.Await) for st in first.body for n in ast.walk(st))
     body_returns = any(isinstance(n, ast.Return) for st in first.body for n in ast.walk(st))
     if body_awaits and not first.orelse:
-        parks_when = True          # `if <cond>: <park>` ; falls through to `self._locked = True`
+        parks_when = True
     elif body_returns and not body_awaits:
-        parks_when = False         # guard clause: `if <cond>: self._locked = True; return` ; then <park>
+        parks_when = False
     else:
         raise _Outside("FairLock.acquire: unrecognised shape of the first if")
-    table = {}
-    for locked in (False, True):
-        for queued in (False, True):
-            table[(locked, queued)] = _bool_of(first.test, {"_locked": locked, "_waiters": queued}) == parks_when
+    table = {(lk, q): _bool_of(first.test, {flag: lk, queue: q}) == parks_when for lk in (False, True) for q in (False, True)}
     if table[(False, False)] or not table[(True, False)] or not table[(True, True)]:
         raise _Outside("FairLock.acquire: the condition does not park exactly when the lock is held")
     out["fairlock_fast_path_checks_queue"] = table[(False, True)]
@@ -870,25 +940,22 @@ def ast_params():
         raise _Outside("FairLock.acquire: expected one try/finally and one try/except")
     fin = inner[0].finalbody
     if len(fin) != 1 or not isinstance(fin[0], ast.Expr) or not isinstance(fin[0].value, ast.Call) \
-            or not isinstance(fin[0].value.func, ast.Attribute) or not _is_self_attr(fin[0].value.func.value, "_waiters"):
+            or not isinstance(fin[0].value.func, ast.Attribute) or _self_attr_name(fin[0].value.func.value) != queue:
         raise _Outside("FairLock.acquire: unrecognised finally block")
     call = fin[0].value
-    waiter_names = {t.id for n in ast.walk(fn) if isinstance(n, ast.Assign) for t in n.targets if isinstance(t, ast.Name)}
-    if call.func.attr == "remove" and len(call.args) == 1 and isinstance(call.args[0], ast.Name) and call.args[0].id in waiter_names:
+    locals_ = {t.id for n in ast.walk(fn) if isinstance(n, ast.Assign) for t in n.targets if isinstance(t, ast.Name)}
+    if call.func.attr == "remove" and len(call.args) == 1 and isinstance(call.args[0], ast.Name) and call.args[0].id in locals_:
         out["fairlock_leave_removes_own_waiter"] = True
     elif call.func.attr in ("popleft", "pop"):
         out["fairlock_leave_removes_own_waiter"] = False
     else:
         raise _Outside("FairLock.acquire: unrecognised way of leaving the queue")
     body = outer[0].handlers[0].body
-    if body and isinstance(body[-1], ast.Raise) and len(body) == 2 and isinstance(body[0], ast.If) and not body[0].orelse \
-            and len(body[0].body) == 1 and isinstance(body[0].body[0], ast.Expr) and isinstance(body[0].body[0].value, ast.Call) \
-            and _is_self_attr(body[0].body[0].value.func, "_wake_up_first"):
-        # when does the cancelled waiter pass the wake-up on?
-        out["fairlock_cancel_rewakes_when_free"] = _bool_of(body[0].test, {"_locked": False, "_waiters": True})
-        out["fairlock_cancel_silent_when_held"] = not _bool_of(body[0].test, {"_locked": True, "_waiters": True})
-    elif len(body) == 2 and isinstance(body[1], ast.Raise) and isinstance(body[0], ast.Expr) and isinstance(body[0].value, ast.Call) \
-            and _is_self_attr(body[0].value.func, "_wake_up_first"):
+    if len(body) == 2 and isinstance(body[1], ast.Raise) and isinstance(body[0], ast.If) and not body[0].orelse \
+            and len(body[0].body) == 1 and is_wake_call(body[0].body[0]):
+        out["fairlock_cancel_rewakes_when_free"] = _bool_of(body[0].test, {flag: False, queue: True})
+        out["fairlock_cancel_silent_when_held"] = not _bool_of(body[0].test, {flag: True, queue: True})
+    elif len(body) == 2 and isinstance(body[1], ast.Raise) and is_wake_call(body[0]):
         out["fairlock_cancel_rewakes_when_free"] = True
         out["fairlock_cancel_silent_when_held"] = False
     elif len(body) == 1 and isinstance(body[0], ast.Raise):
@@ -896,21 +963,24 @@ def ast_params():
         out["fairlock_cancel_silent_when_held"] = True
     else:
         raise _Outside("FairLock.acquire: unrecognised except clause")
-    fn = _func(_FL, "FairLock", "_wake_up_first")
-    subs = [n for n in ast.walk(fn) if isinstance(n, ast.Subscript) and _is_self_attr(n.value, "_waiters")]
+    subs = [n for n in ast.walk(waker) if isinstance(n, ast.Subscript) and _self_attr_name(n.value) == queue]
     if len(subs) != 1:
-        raise _Outside("FairLock._wake_up_first: expected one subscript of self._waiters")
+        raise _Outside("FairLock wake-up helper: expected one subscript of the queue")
     idx = subs[0].slice
     if isinstance(idx, ast.Constant) and isinstance(idx.value, int):
         out["fairlock_wakes_the_head"] = idx.value == 0
     elif isinstance(idx, ast.UnaryOp) and isinstance(idx.op, ast.USub):
         out["fairlock_wakes_the_head"] = False
     else:
-        raise _Outside("FairLock._wake_up_first: unrecognised index")
+        raise _Outside("FairLock wake-up helper: unrecognised index")
     return out
 
 
 def ast_params_tls():
+    """TLS facts.  Roles, not names: the wrapped transport is the attribute whose send_all() is called; the write BIO is
+    the attribute that is read and whose `.pending` is tested; the locks are the attributes assigned from the backend's
+    create_fair_lock()/create_lock(); the SEND lock is the one held (`async with`) around a send on the wrapped
+    transport.  When a role cannot be identified: _Outside (the probe decides alone), never a definite False."""
     import ast
     import os
 
@@ -926,36 +996,48 @@ def ast_params_tls():
         raise _Outside("class AsyncTLSStreamTransport not found")
     cls = found[0]
     methods = {m.name: m for m in cls.body if isinstance(m, (ast.FunctionDef, ast.AsyncFunctionDef))}
+    # ---- the whole packet enters the backlog before the first await
     fn = methods.get("send_all_from_iterable")
     if fn is None:
         raise _Outside("send_all_from_iterable not found")
-    aliases = {t.id for n in ast.walk(fn) if isinstance(n, ast.Assign) and _is_self_attr(n.value, "_data_deque")
+    aliases = {t.id: _self_attr_name(n.value) for n in ast.walk(fn) if isinstance(n, ast.Assign) and _self_attr_name(n.value)
                for t in n.targets if isinstance(t, ast.Name)}
     calls = [n.func.attr for n in ast.walk(fn) if isinstance(n, ast.Call) and isinstance(n.func, ast.Attribute)
-             and (_is_self_attr(n.func.value, "_data_deque") or (isinstance(n.func.value, ast.Name) and n.func.value.id in aliases))]
+             and n.func.attr in ("extend", "append", "appendleft", "extendleft")
+             and (_self_attr_name(n.func.value) or (isinstance(n.func.value, ast.Name) and n.func.value.id in aliases))]
     loops = [n for n in ast.walk(fn) if isinstance(n, (ast.For, ast.AsyncFor, ast.While))]
     awaits_in_loops = any(isinstance(x, ast.Await) for lp in loops for x in ast.walk(lp))
     if calls == ["extend"] and not loops:
         out["tls_whole_packet_enters_backlog_at_once"] = True
     elif calls and awaits_in_loops:
         out["tls_whole_packet_enters_backlog_at_once"] = False
-    else:
-        raise _Outside("send_all_from_iterable: unrecognised backlog handling")
-    under_lock = set()
-    for node in ast.walk(cls):
-        if isinstance(node, ast.AsyncWith) and any(
-                isinstance(i.context_expr, ast.Attribute) and i.context_expr.attr.endswith("__transport_send_lock")
-                for i in node.items):
-            for sub in ast.walk(node):
-                under_lock.add(id(sub))
-    reads = [n for n in ast.walk(cls) if isinstance(n, ast.Call) and isinstance(n.func, ast.Attribute) and n.func.attr == "read"
-             and _is_self_attr(n.func.value, "_write_bio")]
+    # (else: not recognised, the probe decides)
+    # ---- roles
     sends = [n for n in ast.walk(cls) if isinstance(n, ast.Call) and isinstance(n.func, ast.Attribute) and n.func.attr == "send_all"
-             and _is_self_attr(n.func.value, "_transport")]
-    if not reads or not sends:
-        raise _Outside("no direct write-BIO read / transport send in the class (aliased?)")
-    out["tls_bio_read_under_send_lock"] = all(id(n) in under_lock for n in reads)
-    out["tls_transport_send_under_send_lock"] = all(id(n) in under_lock for n in sends)
+             and _self_attr_name(n.func.value)]
+    lowers = {_self_attr_name(n.func.value) for n in sends}
+    pend = {_self_attr_name(n.value) for n in ast.walk(cls) if isinstance(n, ast.Attribute) and n.attr == "pending" and _self_attr_name(n.value)}
+    reads = [n for n in ast.walk(cls) if isinstance(n, ast.Call) and isinstance(n.func, ast.Attribute) and n.func.attr == "read"
+             and _self_attr_name(n.func.value) in pend]
+    bios = {_self_attr_name(n.func.value) for n in reads}
+    lock_attrs = {_self_attr_name(t) for n in ast.walk(cls) if isinstance(n, ast.Assign) and isinstance(n.value, ast.Call)
+                  and isinstance(n.value.func, ast.Attribute) and n.value.func.attr in ("create_fair_lock", "create_lock")
+                  for t in n.targets if _self_attr_name(t)}
+    if len(lowers) != 1 or len(bios) != 1 or not lock_attrs:
+        return out
+    holders = {}          # lock attribute -> ids of the nodes inside an `async with self.<lock>`
+    for node in ast.walk(cls):
+        if isinstance(node, ast.AsyncWith):
+            for item in node.items:
+                name = _self_attr_name(item.context_expr)
+                if name in lock_attrs:
+                    holders.setdefault(name, set()).update(id(sub) for sub in ast.walk(node))
+    send_locks = [name for name, ids in holders.items() if any(id(n) in ids for n in sends)]
+    if len(send_locks) != 1:
+        return out            # no lock (or several) around the sends: the role is not identified, the probe decides
+    under = holders[send_locks[0]]
+    out["tls_bio_read_under_send_lock"] = all(id(n) in under for n in reads)
+    out["tls_transport_send_under_send_lock"] = all(id(n) in under for n in sends)
     return out
 
 
@@ -1012,7 +1094,7 @@ def behavioural_params():
     with detloop.running() as loop:
         sess = Session(loop, KIND_TLS_FAIR, progs, (2,))
         try:
-            wired = type(sess.tls._write_bio).__name__ == "BioProxy" and sess.transport.send_lock is not None
+            wired = getattr(sess, "bio_proxies", 0) >= 2 and sess.transport.send_lock is not None
         finally:
             sess.finish()
     if not wired:
@@ -1179,10 +1261,10 @@ def oracle_threads(kind, progs, actions):
     try:
         packets, statuses, _log = run_threads(kind, progs, actions, detail=True)
     except RuntimeError as exc:
-        return f"interleaved: {exc}"
+        return f"stranded: {exc}" if "watchdog" in str(exc) else f"interleaved: {exc}"
     started = sorted({a[1] for a in actions if a[0] == A_START})
-    timed = sorted({a[1] for a in actions if a[0] == A_TSTART and (len(a) < 3 or a[2] != 2)} - set(started))
-    started = sorted(set(started) | {a[1] for a in actions if a[0] == A_TSTART and len(a) > 2 and a[2] == 2})
+    timed = sorted({a[1] for a in actions if a[0] == A_TSTART and (len(a) < 3 or a[2] in (0, 1))} - set(started))
+    started = sorted(set(started) | {a[1] for a in actions if a[0] == A_TSTART and len(a) > 2 and a[2] in (2, 3)})
     for t in started:
         if statuses[t] != 10:
             return f"send failed: thread {t} ended with code {statuses[t]}"
@@ -1370,9 +1452,9 @@ def cases(tier, rng, escalate):
         for _ in range(count):
             ntasks = rng.choice([2, 3, 3, 4])
             shape = [[rng.choice([1, 1, 2, 3]) for _ in range(rng.choice([1, 1, 2]))] for _ in range(ntasks)]
-            timed = {t: rng.choice([0, 1, 1, 2, 2]) for t in range(ntasks) if rng.random() < 0.35}
+            timed = {t: rng.choice([0, 1, 1, 2, 2, 3, 3, 3]) for t in range(ntasks) if rng.random() < 0.4}
             for t, c in timed.items():
-                if c != 2:
+                if c in (0, 1):
                     shape[t] = shape[t][:1]       # a sender with a finite timeout sends one packet
             progs = mkprogs(shape, rng)
             pool = [[A_TSTART, t, timed[t]] if t in timed else [A_START, t] for t in range(ntasks) if rng.random() < 0.9]
@@ -1385,12 +1467,14 @@ def cases(tier, rng, escalate):
         # a sender parked mid-packet, a second send that times out on the lock, a third sender
         # and every kind of timeout (None / 0 / positive / inf) on a free and on a contended lock
         for perm in ([0, 1, 2], [0, 2, 1]) if kind == KIND_THREAD_TCP else ([0, 1, 2],):
-            for code in (0, 1, 2):
+            for code in (0, 1, 2, 3):
                 progs = mkprogs([[2], [1], [2]])
                 timed_start = [A_TSTART, 1, code]
                 acts = [[A_START, perm[0]], timed_start if perm[1] == 1 else [A_START, perm[1]],
                         timed_start if perm[2] == 1 else [A_START, perm[2]], [A_OK, 0]]
-                for script in (acts, [timed_start, [A_START, 0], [A_OK, 0], [A_START, 2]]):
+                # ... and a timed sender that WAITS, is granted when the holder is released, then further senders
+                waits = [[A_START, 0], timed_start, [A_OK, 0], [A_OK, 0], [A_START, 2], [A_OK, 0], [A_OK, 0], [A_OK, 0]]
+                for script in (acts, [timed_start, [A_START, 0], [A_OK, 0], [A_START, 2]], waits):
                     c = _thread_case(kind, progs, script, "exhaustive")
                     c["tags"].append("lock-timeout")
                     yield c
